@@ -140,18 +140,20 @@ def entry_for(item, sampler, out):
             my = ded
         e.check(len(my) == len(ref), 'mysql binds %d values (after removing emulation duplicates), sqlite %d' % (len(my), len(ref)), info)
         for x, y in zip(my, ref): e.check(struct_eq(e, x, y), 'mysql and sqlite bind different values at the same position', info)
-        if sampler.want(): out.append({'stmt': subst_tags(st, f), 'sql': {b: res[b][0] for b in BACKENDS}})
+        if sampler.want(): out.append({'stmt': subst_tags(st, f, e.ensure_model()), 'sql': {b: res[b][0] for b in BACKENDS}})
     return entry
 
 def work(w):
     item, prefix, seed = w
     eng = ENG; reset_stats(eng); eng.solver = z3.Solver()
+    from props.c01 import PREFER
+    eng.prefer = PREFER
     samples = []; sampler = Sampler(seed, first=1, every=60)
     try:
         viol = eng.run_all(entry_for(item, sampler, samples), prefix=prefix)
     except (Budget, Unsupported) as ex:
         return {'inconclusive': '%s: %s' % (type(ex).__name__, ex), 'item': repr(item)}
-    vs = [{'kind': k, 'msg': msg, 'item': [item[0]], 'stmt': subst_tags(info['stmt'], info['fam']) if info else None, 'chosen': info and info['fam'].chosen} for k, msg, m, info in viol]
+    vs = [{'kind': k, 'msg': msg, 'item': [item[0]], 'stmt': subst_tags(info['stmt'], info['fam'], m) if info else None, 'chosen': info and info['fam'].chosen} for k, msg, m, info in viol]
     return {'stats': eng.stats, 'executed': eng.executed, 'models_used': eng.models_used, 'violations': vs, 'samples': samples, 'item': repr(item)}
 
 def native_verdict(nat, st):
